@@ -247,4 +247,31 @@ theorem step_pending_subset (s : St) (sock : Sock) (src : Addr) (i : Inp) :
   | data | indication => simp only [step]; split <;> simp
 
 
+/-- lemma: the transport mode never changes -/
+theorem hstep_webrtc (s : St) (e : HEv) : (hstep s e).webrtc = s.webrtc := by
+  cases e with
+  | pkt sock src i =>
+    cases i with
+    | request r => simp [hstep, step]
+    | response tx er => simp only [hstep, step, handleResponse]; split <;> rfl
+    | data | indication => simp only [hstep, step]; split <;> rfl
+    | undecodable | empty => rfl
+  | tick tx => rfl
+  | advance t => rfl
+
+
+theorem classify_request_accepted (P : Prims) (ufrag pwd b : Bytes) (r : Req)
+    (h : classify P ufrag pwd b = .request r) : r.accepted = codeAuth P ufrag pwd b := by
+  unfold classify at h
+  split at h
+  · cases h
+  · split at h
+    · split at h
+      · split at h
+        · cases h; rfl
+        all_goals cases h
+      · cases h
+    · cases h
+
+
 end RtcModel.IceAuth
